@@ -171,7 +171,7 @@ def check_case(prop, case, sb, drv, key, out, n_orders=3):
                 if page is None: continue
                 content = find_content(inp['children'], relf) if inp['kind'] == 'dir' else inp['content']
                 title, mod = expected_names(case, inp, '/'.join(relf))
-                m = re.match(r'#\[\[\[\s*@module([^\n]*)\n', content)
+                m = re.match(r'[ \t]*#\[\[\[\s*@module([^\n]*)\n', content)
                 named = m.group(1).strip() if m else None
                 if named: title = mod = named
                 lines = page.split('\n')
@@ -179,7 +179,7 @@ def check_case(prop, case, sb, drv, key, out, n_orders=3):
                 if lines[:6] != want or sum(1 for l in lines if l.startswith('.. module::')) != 1:
                     vios.append(dict(kind='title/module frame', file=relf, expected=want, real=lines[:7])); break
                 if m is not None:
-                    body = [l for l in content.split('\n')[1:] if l.startswith('# ')]
+                    body = [l.strip() for l in content.split('\n')[1:] if l.strip().startswith('# ')]
                     if lines[6:8] != ['', '   ' + body[0][2:]]:
                         vios.append(dict(kind='module doccomment text not under the module directive', file=relf, real=lines[6:9])); break
             titles = {}
